@@ -548,6 +548,14 @@ func genApplyCase(r *rng, c genCfg, o aopts, docMode, patchMode int, maxOps int)
 		if o.ensure && op.op == "add" && r.chance(1, 2) {
 			op.path = ensurePath(r, cur)
 		}
+		if len(ops) > 0 && r.chance(1, 3) {
+			// an operation RELATED to an earlier one of this patch by the TEXT of its pointer: the same parent with
+			// another last token, the same pointer again, or an insertion/removal in an array that an earlier pointer
+			// goes through (which renumbers what that text addresses) - anything remembered per pointer text goes stale
+			if rel, ok := relatedOp(r, ops, cur, c); ok {
+				op = rel
+			}
+		}
 		ops = append(ops, op)
 		res := callApply(oo, "", doc, spell{1, r}.patchText(ops))
 		if b, ok := okBytes(res); ok {
@@ -563,6 +571,91 @@ func genApplyCase(r *rng, c genCfg, o aopts, docMode, patchMode int, maxOps int)
 		}
 	}
 	return acase{o: o, doc: doc, ops: ops, patch: psp.patchText(ops)}
+}
+
+// see genApplyCase
+func relatedOp(r *rng, ops []opSpec, cur *jv, c genCfg) (opSpec, bool) {
+	e := ops[r.n(len(ops))]
+	p := e.path
+	if e.from != nil && r.chance(1, 3) {
+		p = *e.from
+	}
+	if !strings.HasPrefix(p, "/") {
+		return opSpec{}, false
+	}
+	toks := strings.Split(p[1:], "/")
+	val := func() *jv {
+		if r.chance(1, 5) {
+			return jnull()
+		}
+		return genValue(r, genCfg{depth: 2, plain: c.plain, nullW: c.nullW, maxMember: 3}, 1)
+	}
+	switch k := r.n(10); {
+	case k < 4:
+		// sibling: same parent text, another last token
+		parent := "/" + strings.Join(toks[:len(toks)-1], "/")
+		if len(toks) == 1 {
+			parent = ""
+		}
+		tok := r.pick([]string{"n0", "n1", "y", "z", "0", "1", "-", encTok(r.pick(namePool))})
+		return opSpec{op: "add", path: parent + "/" + tok, value: val()}, true
+	case k < 5:
+		// the same pointer once more
+		switch r.n(4) {
+		case 0:
+			return opSpec{op: "add", path: p, value: val()}, true
+		case 1:
+			return opSpec{op: "remove", path: p}, true
+		case 2:
+			return opSpec{op: "replace", path: p, value: val()}, true
+		default:
+			v := val()
+			if t := resolve(cur, p); t != nil && r.chance(2, 3) {
+				v = t.clone()
+			}
+			return opSpec{op: "test", path: p, value: v}, true
+		}
+	default:
+		// renumber: insert into / remove from an array on the way, at or below the index the earlier pointer used
+		var cands []int
+		for i := 0; i < len(toks); i++ {
+			q := "/" + strings.Join(toks[:i], "/")
+			if i == 0 {
+				q = ""
+			}
+			if t := resolve(cur, q); t != nil && t.kind == kArr {
+				cands = append(cands, i)
+			}
+		}
+		if len(cands) == 0 {
+			return opSpec{}, false
+		}
+		i := cands[r.n(len(cands))]
+		q := "/" + strings.Join(toks[:i], "/")
+		if i == 0 {
+			q = ""
+		}
+		used, err := strconv.Atoi(toks[i])
+		if err != nil || used < 0 {
+			used = 0
+		}
+		j := used
+		if used > 0 && r.chance(2, 3) {
+			j = r.n(used + 1)
+		}
+		at := q + "/" + strconv.Itoa(j)
+		switch r.n(4) {
+		case 0:
+			return opSpec{op: "remove", path: at}, true
+		case 1:
+			f := existingPath(r, cur)
+			return opSpec{op: "copy", path: at, from: &f}, true
+		case 2:
+			return opSpec{op: "add", path: at, value: &jv{kind: kObj}}, true
+		default:
+			return opSpec{op: "add", path: at, value: val()}, true
+		}
+	}
 }
 
 // a path for EnsurePathExistsOnAdd: an existing prefix, then fresh tokens
@@ -685,6 +778,9 @@ func streamApply(r *rng, n int, pfx string) {
 			c.indent = r.pick([]string{" ", "\t", "", " "})
 		}
 		emitApply(fmt.Sprintf("%s%d", pfx, i), c)
+		if r.chance(1, 300) {
+			emitApply(fmt.Sprintf("%s%dB", pfx, i), bigApplyCase(r, o, []int{1100, 1100, 4200, 4200, 66000}[r.n(5)]))
+		}
 	}
 }
 
@@ -696,6 +792,53 @@ func streamEnsure(r *rng, n int, pfx string) {
 		c := genApplyCase(r, cfgFor(r), o, r.n(3), r.n(3), 4)
 		emitApply(fmt.Sprintf("%s%d", pfx, i), c)
 	}
+}
+
+// a BIG document: one wide object (its text just over 1 KiB, 4 KiB or 64 KiB, where size-gated fast paths and
+// buffer classes change) next to a few small members, and a patch that first goes INTO the wide object (so that
+// it is decoded) and then copies, moves or tests it as a whole
+func bigApplyCase(r *rng, o aopts, size int) acase {
+	lits := []string{"1.0", "1e400", "-0", "12345678901234567890123", "0.10", "7", "true", "null", `"x<y>&z"`, `"\u00e9"`, `{"a":1,"b":[1,2]}`, `[1,{"c":null}]`, `""`}
+	var sb strings.Builder
+	sb.WriteString(`{"id":1,"settings":{`)
+	var keys []string
+	order := r.n(10000)
+	for i := 0; sb.Len() < size; i++ {
+		k := fmt.Sprintf("option-%04d-%s", (i*37+order)%10000, strings.Repeat("x", 4+r.n(8)))
+		keys = append(keys, k)
+		if i > 0 {
+			sb.WriteByte(',')
+		}
+		if size > 5000 && i%2 == 1 {
+			// bytes, not members, make such a document big (the model's association lists are quadratic in members)
+			fmt.Fprintf(&sb, `"%s":"%s"`, k, strings.Repeat(r.pick([]string{"lorem ipsum ", "<b>&amp;</b> ", "\\u00e9\\n ", "0123456789abcdef"}), 60+r.n(40)))
+			continue
+		}
+		fmt.Fprintf(&sb, `"%s":%s`, k, lits[r.n(len(lits))])
+	}
+	sb.WriteString(`},"list":[{"n":1},[2],3],"tail":"end"}`)
+	doc := []byte(sb.String())
+	k := func() string { return "/settings/" + keys[r.n(len(keys))] }
+	one := jnum("1")
+	st, mv, l0 := "/settings", "/moved", "/list/0"
+	var ops []opSpec
+	switch r.n(5) {
+	case 0:
+		ops = []opSpec{{op: "replace", path: k(), value: one}, {op: "copy", path: "/backup", from: &st}}
+	case 1:
+		ops = []opSpec{{op: "add", path: "/settings/new", value: jnull()}, {op: "move", path: mv, from: &st}, {op: "add", path: "/moved/new2", value: one}}
+	case 2:
+		ops = []opSpec{{op: "remove", path: k()}, {op: "copy", path: l0, from: &st}, {op: "add", path: "/list/0/added", value: one}, {op: "replace", path: "/list/0/added", value: jnull()}}
+	case 3:
+		kk := k()
+		ops = []opSpec{{op: "copy", path: "/settings/dup", from: &kk}, {op: "copy", path: "/backup", from: &st}, {op: "copy", path: "/backup2", from: &st}, {op: "remove", path: "/backup/dup"}}
+	default:
+		ops = []opSpec{{op: "add", path: k(), value: jstr("changed")}, {op: "copy", path: "/tail", from: &st}, {op: "move", path: "/settings", from: &st}}
+	}
+	if r.chance(1, 3) {
+		ops = ops[:1+r.n(len(ops))]
+	}
+	return acase{o: o, doc: doc, ops: ops, patch: spell{r.n(3), r}.patchText(ops)}
 }
 
 // cumulative copy totals, learnt from the library's own error values
@@ -738,7 +881,15 @@ func streamLimit(r *rng, n int, pfx string) {
 	for i := 0; i < n; {
 		o := randOpts(r)
 		o.ensure = false
-		c := genApplyCase(r, cfgFor(r), o, r.n(3), r.n(3), 6)
+		gc := cfgFor(r)
+		if r.chance(1, 5) {
+			// repeated member names: the copy is as big as the text the encoder writes for it (one member per
+			// occurrence of a name once the object has been decoded), whatever value that text denotes
+			gc.dups = true
+			gc.plain = false
+			gc.maxMember = 5
+		}
+		c := genApplyCase(r, gc, o, r.n(3), r.n(3), 6)
 		hasCopy := false
 		for _, op := range c.ops {
 			if op.op == "copy" {
@@ -1015,6 +1166,13 @@ func mutateValue(r *rng, v *jv, c genCfg) *jv {
 func streamEqual(r *rng, n int, pfx string) {
 	for i := 0; i < n; i++ {
 		c := cfgFor(r)
+		if r.chance(1, 6) {
+			// repeated member names: WHICH value such a text denotes is left open (the verdict is `unspec`), but Equal
+			// must still be symmetric and reflexive on it ("all pairs of byte strings")
+			c.dups = true
+			c.plain = false
+			c.maxMember = 5
+		}
 		var a *jv
 		if r.chance(1, 5) {
 			a = genValue(r, c, 0)
@@ -1044,8 +1202,8 @@ func streamEqual(r *rng, n int, pfx string) {
 		if !bytes.Equal(sa, ta) || !bytes.Equal(sb, tb) {
 			mut = " mut=1"
 		}
-		emit("EQUAL %s%da %s %s => %s%s", pfx, i, hx(ta), hx(tb), res, mut)
-		emit("EQUAL %s%db %s %s => %s%s", pfx, i, hx(tb), hx(ta), res2, mut)
+		emit("EQUAL %s%da %s %s => %s%s sym=%s refl=%s", pfx, i, hx(ta), hx(tb), res, mut, res2, callEqual(ta, append([]byte(nil), ta...)))
+		emit("EQUAL %s%db %s %s => %s%s sym=%s refl=%s", pfx, i, hx(tb), hx(ta), res2, mut, res, callEqual(tb, append([]byte(nil), tb...)))
 	}
 }
 
@@ -1393,7 +1551,34 @@ func streamDecode(r *rng, n int, pfx string) {
 			text = wsWrap(r, text)
 		}
 		emitDecode(fmt.Sprintf("%s%d", pfx, i), text)
+		if r.chance(1, 400) {
+			emitDecode(fmt.Sprintf("%s%dL", pfx, i), longPatch(r))
+		}
 	}
+}
+
+// a patch document with MANY operations - lengths at and around powers of two, where chunked, batched or parallel
+// processing changes its path - all well-formed except (mostly) one, placed at the head, in the middle or among
+// the last few elements
+func longPatch(r *rng) []byte {
+	base := []int{255, 256, 1023, 1024, 2048, 4096}[r.n(6)]
+	n := base + r.n(5)
+	good := []string{`{"op":"add","path":"/a","value":1}`, `{"op":"remove","path":"/a"}`, `{"op":"test","path":"/b","value":null}`,
+		`{"op":"move","from":"/a","path":"/b"}`, `{"op":"copy","from":"/b","path":"/a"}`, `{"op":"replace","path":"","value":{}}`}
+	bad := []string{`{"op":"add","path":"/k"}`, `{"op":"replace","path":7,"value":1}`, `{"op":"move","path":"/a"}`, `{"op":"copy","from":null,"path":"/a"}`,
+		`{"op":"frob","path":"/a"}`, `{"path":"/a","value":1}`, `{"Op":"add","path":"/a","value":1}`, `null`, `7`, `{"op":"test","path":"/a"}`}
+	elems := make([]string, n)
+	for i := range elems {
+		elems[i] = good[r.n(len(good))]
+	}
+	if !r.chance(1, 5) {
+		at := []int{0, n / 2, n - 1, n - 2, n - 3, 4 * (n / 4), 8*(n/8) + 1, r.n(n)}[r.n(8)]
+		if at >= n {
+			at = n - 1
+		}
+		elems[at] = bad[r.n(len(bad))]
+	}
+	return []byte("[" + strings.Join(elems, ",") + "]")
 }
 
 // ---------- malformed texts ----------
